@@ -43,7 +43,10 @@ def get_inherited(t: Type) -> Type:
 
     g_args = get_args(t)
     if len(g_args) > 0:
-        mapping = {a.__name__: v for a, v in zip(r.__parameters__, g_args)}
+        # The arguments of `t` bind the type variables of its own class, in the order that
+        # class declares them (`class C(Base[T], Generic[U, T])`: C[int, Jet] is a Base[Jet])
+        own_parameters = getattr(get_origin(t), "__parameters__", None) or r.__parameters__
+        mapping = {a.__name__: v for a, v in zip(own_parameters, g_args)}
 
         r_base = get_origin(r)
         assert r_base is not None, "Internal error"
